@@ -16,6 +16,8 @@ import (
 	"github.com/jsightapi/jsight-api-go-library/directive"
 	"github.com/jsightapi/jsight-api-go-library/jerr"
 	"github.com/jsightapi/jsight-api-go-library/kit"
+	sfs "github.com/jsightapi/jsight-schema-go-library/fs"
+	"github.com/jsightapi/jsight-schema-go-library/notations/jschema"
 )
 
 // runCase is one project to be processed by the real library.
@@ -43,6 +45,9 @@ type errObs struct {
 	Quote string      `json:"quote"`
 	Trace [][2]string `json:"trace"`
 	FLen  int         `json:"flen"` // length of the file the error names, -1 if unknown
+	// DepFault: the diagnostic text is a Go runtime fault and calling the schema library directly
+	// on the bytes at the error position reproduces exactly this text ("Len" | "compile")
+	DepFault string `json:"dep_fault,omitempty"`
 }
 
 type node struct {
@@ -222,14 +227,65 @@ func observeErr(je *jerr.JApiError, base string, c *runCase) *errObs {
 	for _, t := range je.VerifTrace() {
 		e.Trace = append(e.Trace, [2]string{rel(base, t[0]), t[1]})
 	}
+	var content []byte
 	if data, err := os.ReadFile(je.VerifFileName()); err == nil {
 		e.FLen = len(data)
+		content = data
 	} else if b64, ok := c.Files[e.File]; ok {
 		if data, err := base64.StdEncoding.DecodeString(b64); err == nil {
 			e.FLen = len(data)
+			content = data
 		}
 	}
+	if strings.Contains(e.Msg, "runtime error") && content != nil && int(e.Index) <= len(content) {
+		e.DepFault = depFault(content, int(e.Index), e.Msg)
+	}
 	return e
+}
+
+// depFault asks the schema library alone, on the bytes of the file at the error position, whether it
+// produces the Go runtime fault that the diagnostic shows.
+func depFault(content []byte, idx int, msg string) string {
+	try := func(f func() error) (hit bool) {
+		defer func() {
+			if r := recover(); r != nil {
+				hit = fmt.Sprint(r) == msg
+			}
+		}()
+		err := f()
+		return err != nil && err.Error() == msg
+	}
+	tail := content[idx:]
+	if try(func() error { _, err := jschema.FromFile(sfs.NewFile("", tail)).Len(); return err }) {
+		return "Len"
+	}
+	// the error is at a directive: its body starts on the next line and ends at some later line end
+	eol := bytes.IndexAny(tail, "\n\r")
+	if eol < 0 {
+		return ""
+	}
+	rest := tail[eol+1:]
+	for k := 1; k <= len(rest); k++ {
+		if k < len(rest) && rest[k] != '\n' && rest[k] != '\r' {
+			continue
+		}
+		body := rest[:k]
+		if try(func() error { _, err := jschema.New("", body).GetAST(); return err }) {
+			return "compile"
+		}
+		// ... or the body is the schema of a user type that another schema refers to
+		if try(func() error {
+			s := jschema.New("", []byte("{}"))
+			if err := s.AddType("@t", jschema.New("@t", body)); err != nil {
+				return nil
+			}
+			_, err := s.GetAST()
+			return err
+		}) {
+			return "compile"
+		}
+	}
+	return ""
 }
 
 // once runs the project once and returns the observation.
